@@ -52,6 +52,15 @@ def gen_cases(tier, seed):
             cfg["parts"] = [_smooth(p) for p in cfg["parts"]]
         cases.append({"kind": "flow", "cfg": cfg, "mode": "eval" if i % 2 else "train", "policy": "randn0.3",
                       "seed": env.subseed(seed, "c16f", i), "world": "f64", "tier_": tier, "cost": 5})
+    # library distributions: log_prob must be differentiable w.r.t. parameters, inputs and context
+    for i in range(20 if tier == "quick" else 400):
+        dc = dzoo.sample_dist_cfg(rng, [["cond_diag", "mademog", "mademog", "diag", "bernoulli"][i % 5]])
+        if dc["dist"] == "mademog":
+            dc["narrow"] = False
+            dc["bn"] = bool(i % 2)
+            dc["act"] = ["relu", "elu", "tanh"][(i // 5) % 3]
+        cases.append({"kind": "dist", "cfg": dc, "mode": "eval" if i % 3 else "train", "policy": "fresh",
+                      "seed": env.subseed(seed, "c16d", i), "world": "f64", "tier_": tier, "cost": 2})
     return cases
 
 
@@ -81,6 +90,11 @@ def run_case(case):
             model = zoo.make(cfg, case["policy"], seed, mode="eval")
             label = cfg["fam"]
             dirs = ["forward", "inverse"]
+        elif kind == "dist":
+            model = dzoo.build_dist(cfg, seed)
+            label = "dist_" + cfg["dist"]
+            me = None
+            dirs = ["log_prob"]
         else:
             model = dzoo.build_flow(cfg, seed, policy=case["policy"])
             dzoo.warm_flow(model, cfg, seed)
@@ -119,6 +133,10 @@ def run_case(case):
                         break
                     if not torch.isfinite(x).all():
                         break
+            elif kind == "dist":
+                x, ctx = dzoo.dist_inputs(cfg, B, seed + 11 * attempt + 1)
+                if not dzoo.dist_meta(cfg)["needs_ctx"] and seed % 2:
+                    ctx = ctx if cfg["dist"] == "mademog" else None
             else:
                 x, ctx = dzoo.flow_inputs(cfg, B, seed + 11 * attempt + 1)
             status = check_direction(r, model, kind, label, direction, x, ctx, params, g, case, cfg, mode, me)
@@ -150,7 +168,8 @@ def run_case(case):
 
 
 def functional(model, kind, direction, x, ctx, w, v):
-    if kind == "flow":
+    torch.manual_seed(20260927)      # dropout in training mode: the same masks in every evaluation (a deterministic function)
+    if kind in ("flow", "dist"):
         lp = model.log_prob(x, ctx)
         return (v * lp).sum()
     out, lad = (model.forward if direction == "forward" else model.inverse)(x, ctx)
@@ -164,7 +183,7 @@ def check_direction(r, model, kind, label, direction, x, ctx, params, g, case, c
     #  graph-free tensors and hide what the first differentiable call stores there)
     try:
         with torch.no_grad():
-            if kind == "flow":
+            if kind in ("flow", "dist"):
                 w = None
                 v = torch.randn(x.shape[0], generator=g)
             else:
@@ -251,7 +270,8 @@ def check_direction(r, model, kind, label, direction, x, ctx, params, g, case, c
 
     # ---- float32 twin: the gradients users actually get must agree with the float64 ones (norm-wise, 20 %:
     # float32 rounding amplified by squashing / steep splines reaches 5 %; a cut gradient path is off by 50-100 %)
-    if kind == "transform" and "umnn" not in label and "umnn" not in str(cfg) and not case.get("pre"):
+    has_dropout = mode == "train" and any(isinstance(m, torch.nn.Dropout) and m.p > 0 for m in model.modules())
+    if kind == "transform" and "umnn" not in label and "umnn" not in str(cfg) and not case.get("pre") and not has_dropout:
         try:
             m32 = copy.deepcopy(model).float()
             m32.zero_grad(set_to_none=True)
